@@ -832,7 +832,7 @@ func (f *Frame) enterLoop(li *loopInfo, st *State) *State {
 				continue
 			}
 			h0 := f.u.heapGet(f.entrySt.heap, r)
-			if strings.HasPrefix(r, "G_") {
+			if strings.HasPrefix(r, "G_") || strings.HasPrefix(r, "GG_") {
 				f.u.assume(hst.reach, mkEq(cur, h0))
 				continue
 			}
